@@ -44,7 +44,7 @@ def gen_systematic(rng, two=False):
                         {'op': 'prefetch', 'w': 2, 'b': 2, 'backend': 't'},
                         {'op': 'parmap', 'id': 'p', 'w': 1, 'b': 1, 'backend': 't'}])]}
     n = desc['source']['n']
-    kind = rng.choice(['close', 'drop', 'cycle_gc', 'exhaust'])
+    kind = rng.choice(['close', 'drop', 'cycle_gc', 'exhaust', 'throw'])
     base = {'desc': desc, 'epochs': 1, 'faults': [], 'cost_seed': None, 'think_seed': 0,
             'think_max': 0, 'trace': ['parallel_utils'], 'systematic': 1,
             'stop': {'kind': 'exhaust'} if kind == 'exhaust' else
@@ -71,12 +71,13 @@ def gen(rng, tier, index):
                     catch_p=0.0 if strict else 0.15))
     n = desc['source']['n']
     nout = len(a.elems) if a.elems is not None else (a.n if a.n is not None else n)
-    kind = rng.choice(['close', 'close', 'drop', 'exc', 'cycle_gc'])
+    kind = rng.choice(['close', 'close', 'drop', 'exc', 'cycle_gc',
+                       'throw' if not strict else 'close'])
     faults = []
     if not strict and n and rng.random() < 0.3:
         stages = [s['id'] for s in desc['stages'] if 'id' in s]
         faults = [{'stage': rng.choice(stages), 'pos': rng.randrange(n),
-                   'exc': rng.choice(['value', 'filter', 'base', 'key'])}]
+                   'exc': rng.choice(['value', 'filter', 'base', 'key', 'index'])}]
     trace = ['parallel_utils', 'core'] if rng.random() < 0.3 else ['parallel_utils']
     # key iteration: the worker then iterates a generator object, not a dataset
     pi_ = pargen.par_index(desc)
